@@ -1,8 +1,10 @@
 #!/bin/sh
-# usage: overlay.sh OUTDIR   -- writes OUTDIR/overlay.json for `go build -overlay` of harness/seq_chunks.
-# Adds the two accessor files and a copy of the CURRENT /repo/output/shared/chunkidgen.go whose `time.Now()` calls read
-# the seam variable verifNow instead (textual replacement only; /repo is never modified). If the file no longer calls
-# time.Now() the copy is not made and the harness reports that the clock is not controllable.
+# usage: overlay.sh OUTDIR   -- writes OUTDIR/overlay.json for `go build -overlay` of harness/seq_chunks (and seq_idorder).
+# Adds the three accessor files and a copy of the CURRENT /repo/output/shared/chunkidgen.go whose `time.Now()` calls read
+# the seam variable verifNow instead (textual replacement only; /repo is never modified). The copy also carries an init
+# function recording how many call sites were redirected (shared.VerifSeamSites): the harness reads from the BUILD whether
+# the seam is compiled in. If the file no longer calls time.Now() the copy is not made, VerifSeamSites() stays 0 and
+# seq_chunks reports the violation key `seam-blind` (the clock dimension would otherwise disappear silently).
 set -eu
 OUT=${1:?usage: overlay.sh OUTDIR}
 VERIF=$(cd "$(dirname "$0")/../.." && pwd)
@@ -11,11 +13,13 @@ mkdir -p "$OUT"
 SRC="$REPO/output/shared/chunkidgen.go"
 EXTRA=""
 if grep -q 'time\.Now()' "$SRC"; then
+  SITES=$(grep -o 'time\.Now()' "$SRC" | wc -l | tr -d ' ')
   sed 's/time\.Now()/verifNow()/g' "$SRC" > "$OUT/chunkidgen.go"
   printf '\nvar _ = time.Now // keeps the "time" import of the original file in use\n' >> "$OUT/chunkidgen.go"
+  printf '\nfunc init() { verifSeamSites = %s } // clock reads redirected to the seam by overlay.sh\n' "$SITES" >> "$OUT/chunkidgen.go"
   EXTRA=", \"$SRC\": \"$OUT/chunkidgen.go\""
 fi
 cat > "$OUT/overlay.json" <<JSON
-{"Replace": {"$REPO/output/fluentdforward/zz_verif_export.go": "$VERIF/hooks/fluentdforward_limits_export.go", "$REPO/output/shared/zz_verif_export.go": "$VERIF/hooks/shared_export.go"$EXTRA}}
+{"Replace": {"$REPO/output/fluentdforward/zz_verif_export.go": "$VERIF/hooks/fluentdforward_limits_export.go", "$REPO/output/shared/zz_verif_export.go": "$VERIF/hooks/shared_export.go", "$REPO/output/shared/zz_verif_seam_export.go": "$VERIF/hooks/shared_seam_export.go"$EXTRA}}
 JSON
 echo "$OUT/overlay.json"
